@@ -144,9 +144,62 @@ def check(ctx):
     rejected_steps_probe(ctx)
     adjoint_only_difficulty_probe(ctx)
     frozen_first_probe(ctx)
+    failed_recorded_backward_then_reuse_probe(ctx)
 
 
 # ---------------------------------------------------------------- oracle
+def failed_recorded_backward_then_reuse_probe(ctx):
+    """a module right-hand side over a sequence: a graph-recording backward (create_graph=True) during which the module raises at one
+    evaluation (caught by the caller), then an ordinary call and gradient on the SAME module: the parameter still is the caller's
+    registered Parameter and receives the true sensitivity -t y0 exp(-a t) (round-5 seed C08/13: the substitution context of the
+    object's parameters lost its try/finally; the module kept a clone as a plain attribute and the gradient came back None)"""
+    from xitorch.integrate import solve_ivp
+
+    class Decay(torch.nn.Module):
+        def __init__(self, a):
+            super().__init__()
+            self.a = torch.nn.Parameter(a)
+            self.budget = None
+
+        def forward(self, t, y):
+            if self.budget is not None:
+                self.budget -= 1
+                if self.budget < 0:
+                    raise RuntimeError("evaluation budget exhausted")
+            return -self.a * y
+    ts = torch.linspace(0.0, 1.0, 21, dtype=DT)
+    for method, k in (("rk4", 3), ("rk4", 11), ("rk45", 2), ("euler", 5)):
+        mod = Decay(torch.tensor([0.7, 1.3], dtype=DT))
+        ap = mod.a
+        y0 = torch.tensor([1.0, 2.0], dtype=DT, requires_grad=True)
+        info = {"method": method, "module_raises_after_evaluations_of_the_recorded_backward": k}
+        ctx.count(("failed-recorded-backward-then-reuse", method, k), nontrivial=True)
+        try:
+            with warnings.catch_warnings():
+                warnings.simplefilter("ignore")
+                yt = solve_ivp(mod.forward, ts, y0, method=method)
+                mod.budget = k
+                raised = False
+                try:
+                    torch.autograd.grad(yt[-1].sum(), ap, create_graph=True)
+                except RuntimeError:
+                    raised = True
+                mod.budget = None
+                names = [n for n, _ in mod.named_parameters()]
+                held = mod.a is ap
+                yt2 = solve_ivp(mod.forward, ts, y0, method=method, **({"rtol": 1e-10, "atol": 1e-12} if method == "rk45" else {}))
+                g, = torch.autograd.grad(yt2[-1].sum(), ap, allow_unused=True)
+        except Exception as e:
+            ctx.fail("oracle", "ivpgrad:failed-recorded-backward-then-reuse:exception", info, repr(e)[:300], "a gradient")
+            continue
+        ref = -ts[-1] * y0.detach() * torch.exp(-ap.detach() * ts[-1])
+        tol = 5e-2 if method == "euler" else 1e-5
+        err = None if g is None else float((g - ref).abs().max())
+        if not held or names != ["a"] or err is None or not err <= tol:
+            ctx.fail("oracle", "ivpgrad:failed-recorded-backward-then-reuse", dict(info, backward_raised=raised),
+                     {"module_holds_callers_parameter": held, "named_parameters": names, "gradient_error": err}, "the caller's Parameter, error <= %g" % tol)
+
+
 def families():
     g = torch.Generator().manual_seed(3)
     A0 = -0.5 * torch.eye(2, dtype=DT) + 0.3 * torch.randn(2, 2, dtype=DT, generator=g)
